@@ -218,6 +218,9 @@ Definition c_rotate (old new : Z) (w : world) : world :=
 (* ---- the instantiated lifecycle *)
 Definition cstate := state world ccontent.
 Definition cop := op ccontent cext.
+(* block times are in nanoseconds (Go time.Time); the configured periods are whole seconds *)
+Definition NS : Z := 1000000000.
+
 Record cflags := mkF { f_dur_err : bool;        (* durations handler returns the keeper error *)
                        f_quorum_panics : bool;  (* IsQuorum error => panic *)
                        f_dyn_veto : bool }.     (* dynamic-voter proposals: veto-capable voters from the allowed addresses *)
@@ -225,7 +228,7 @@ Definition c_params (f : cflags) (dec : tally -> vresult) : params world cconten
   mkParams world ccontent cext valid_basic
        (fun w who c => w_can w who (prop_perm c) c) w_is_active
        (fun w who c => w_can w who (vote_perm c) c) w_nvoters (w_nveto (f_dyn_veto f))
-       w_quorum w_end_secs w_enact_secs
+       w_quorum (fun w c => NS * w_end_secs w c) (fun w c => NS * w_enact_secs w c)
        (fun w => n_endblocks (w_np w)) (fun w => n_enactblocks (w_np w)) (c_handler (f_dur_err f)) c_ext c_rotate dec (f_quorum_panics f).
 Definition c_step (f : cflags) (dec : tally -> vresult) : ctx -> cop -> cstate -> outcome cstate :=
   step world ccontent cext (c_params f dec).
